@@ -131,6 +131,15 @@ class Ctx:
         if self.exhaustive is not None:
             cov["exhaustive"] = self.exhaustive
         cov.update(self.extra)
+        try:
+            from . import selftest
+            if selftest.RESULTS:
+                cov["self_test_corrupted_traces"] = dict(selftest.RESULTS)
+                for m_, r_ in selftest.RESULTS.items():
+                    if r_.get("rejected") == 0:
+                        self.notes.append("S leg: corrupted %s cases were NOT rejected" % m_)
+        except Exception:
+            pass
         if level == "model_checking" and (self.states < 1 or self.transitions < 1):
             level = "exploration"
         ev = dict(property_id=self.pid, tier=self.tier, seed=self.seed, level=level, coverage=cov,
